@@ -113,7 +113,8 @@ def strategy(tier):
                   st.integers(0, 2000), st.integers(0, N_OBS - 1), bits),
     )
     reent = st.builds(lambda i, a, b: [["reent", i, a, b]], st.integers(0, 2000), st.sampled_from(["unwatch-later", "unwatch-self", "unwatch-all", "poke"]), bits)
-    item = st.one_of(ops.map(lambda o: [o]), ops.map(lambda o: [o]), ops.map(lambda o: [o]), ops.map(lambda o: [o]), churn, reent)
+    unitflip = st.builds(lambda i: [["unitflip", i]], st.integers(0, 50))
+    item = st.one_of(ops.map(lambda o: [o]), ops.map(lambda o: [o]), ops.map(lambda o: [o]), ops.map(lambda o: [o]), churn, reent, unitflip)
     return st.builds(
         lambda ci, cls, seed, fill, o: {"combo": ci, "cls": cls, "seed": seed, "fill": fill, "ops": [x for grp in o for x in grp][:14]},
         st.integers(0, ncombo - 1),
@@ -324,6 +325,20 @@ def run_case(case) -> Result:
             s.accessors[t].unwatch_all()
             model[t] = []
             hist_special = True
+        elif k == "unitflip":
+            # one update that flips the display unit and covers a temperature item whose stored reading does not change
+            if "TempUnits" not in p.items:
+                continue
+            temps = [t for t in tags if p.items[t].kind == "Temp" and p.items[t].pos + 2 <= packs.BLOCK]
+            if not temps:
+                continue
+            ti = p.items[temps[op[1] % len(temps)]]
+            ui = p.items["TempUnits"]
+            lo = min(ti.pos, ui.pos)
+            hi = max(ti.pos + ti.width, ui.pos + ui.width)
+            pos_, w_, word_ = ui.encode_raw(block, (ui.raw(block) + 1) % max(2, min(ui.capacity, len(ui.labels or [0, 1]))))
+            nb = block[:pos_] + int(word_).to_bytes(w_, "big") + block[pos_ + w_:]
+            do_update(lo, nb[lo:hi], "unit-flip")
         elif k == "reent":
             # two extra observers A, B on one item; A acts from inside its callback, then the item is changed
             t = tags[op[1] % len(tags)]
